@@ -115,7 +115,7 @@ func (e *Exec) Observe(repoModel string, oo ObsOpts) RepoObs {
 			g := e.Do(Op{Op: "BlobGet", Repo: repoModel, Dig: s})
 			e.note(&o, "blobget "+s, g)
 			ok := g.Status == 200 && g.BodyOK && h.BodyOK && g.Dig == s && h.Dig == s
-			if ok && oo.Ranges {
+			if ok && oo.Ranges && len(e.Cat.C[cid].Bytes) > 0 { // ranges over empty content are not pinned by any property
 				for _, rc := range []string{"pre", "suf", "mid"} {
 					rg := e.Do(Op{Op: "BlobGet", Repo: repoModel, Dig: s, Range: rc})
 					_, _, _, sat := rangeFor(rc, len(e.Cat.C[cid].Bytes))
